@@ -9,7 +9,9 @@ import time
 import hashlib
 
 VERIF    = os.path.dirname(os.path.dirname(os.path.abspath(__file__)))
-EVIDENCE = os.path.join(VERIF, 'evidence')
+# (RP_VERIF_EVIDENCE: the seeded-change tools run checks against changed trees and must not
+#  overwrite the evidence of the real tree)
+EVIDENCE = os.environ.get('RP_VERIF_EVIDENCE') or os.path.join(VERIF, 'evidence')
 REPLAYS  = os.path.join(EVIDENCE, 'replay')
 FINDINGS = os.path.join(VERIF, 'known_findings.json')
 
